@@ -667,3 +667,126 @@ def bounded_histories(pid, tier, seed):
             "FiltersSet probes after each history): %d outcomes compared with pristine interpreters" % (depth, n, evals),
             "rule": "distinct = history", "evaluations": evals, "distinct": n ** depth, "samples": samples, "exhaustive": True,
             "violations": findings.violations(pid, "histories", (pid,))}
+
+
+# ----------------------------------------------------------------------------- C04 / C20: serialise and re-parse
+
+def roundtrip_problems(data, r=None):
+    """for an accepted script: tosieve of every top-level command must be accepted again, parse to an equal tree, and
+    printing that second tree must reproduce the same text (fixed point).  -> [(class, detail)]"""
+    from sievelib.parser import Parser
+    if r is None:
+        r = real_parse(data)
+    if r["verdict"] is not True:
+        return []
+    try:
+        buf = io.StringIO()
+        for c in r["result"]:
+            c.tosieve(target=buf)
+        text1 = buf.getvalue()
+    except Exception as e:
+        return [("tosieve-raises", "%s: %s" % (type(e).__name__, e))]
+    p2 = Parser()
+    try:
+        ok2 = p2.parse(text1)
+    except Exception as e:
+        return [("reparse-raises", "%s: %s on %r" % (type(e).__name__, e, text1[-80:]))]
+    if not ok2:
+        return [("printed-text-rejected", "%s ; printed text ends %r" % (p2.error, text1[-80:]))]
+    d = tree_diff(real_tree(p2.result), real_tree(r["result"]))
+    if d:
+        return [("reparsed-tree-differs", d)]
+    buf2 = io.StringIO()
+    for c in p2.result:
+        c.tosieve(target=buf2)
+    if buf2.getvalue() != text1:
+        return [("not-a-fixed-point", "second print differs: %r vs %r" % (buf2.getvalue()[-60:], text1[-60:]))]
+    return []
+
+
+def bounded_custom(pid, tier, seed):
+    """uses of registered custom commands enumerated from their definitions (+ single-token edits), against the reference
+    recognizer extended with the same definitions, and serialised / re-parsed"""
+    from sievelib import commands
+    from contracts import custom
+    from bounded import sieve_gen as g
+    rng = random.Random(seed or 1)
+    descs = custom.descriptions(tier if tier == "thorough" else "quick", seed or 1)
+    if tier != "thorough":
+        descs = descs[::1]
+    if tier == "thorough":
+        descs = descs + custom.descriptions("thorough", (seed or 1) + 1)[60:110]
+    evals = 0
+    distinct = set()
+    findings = Findings()
+    samples = []
+    for d in descs:
+        cls, S = custom.make_custom(d)
+        name = cls.__name__[:-len("Command")].lower()
+        table = dict(ref.frozen.COMMANDS)
+        table[name] = S
+        commands.add_commands(cls)
+        try:
+            head = [b"require", b"[", b'"xext"', b"]", b";"] if S["ext"] else []
+            uses = g.command_variants(name, S)
+            for k, v in enumerate(uses):
+                if S["kind"] == "action":
+                    toks = head + [name.encode()] + v + [b";"]
+                else:
+                    toks = head + [b"if", name.encode()] + v + [b"{", b"stop", b";", b"}"]
+                cases = [("use", toks)] + [("edit:" + kind, t2) for kind, i, t2 in _edits_after(toks, len(head), rng, 8 if tier == "quick" else 25)]
+                if S["ext"]:
+                    cases.append(("without-require", toks[len(head):]))
+                for label, t2 in cases:
+                    data = b" ".join(t2)
+                    evals += 1
+                    distinct.add(data)
+                    r = real_parse(data)
+                    v2 = ref.verdict(data, table)
+                    if r["verdict"] == "exception":
+                        findings.note((pid, "exception"), data.decode("latin-1"), r["exc"])
+                        continue
+                    if v2.status == "valid" and r["verdict"] is not True:
+                        findings.note((pid, "rejects-valid-use"), data.decode("latin-1"), r.get("error"))
+                    elif v2.status == "invalid" and r["verdict"] is True:
+                        findings.note((pid, "accepts-invalid-use." + v2.reason), data.decode("latin-1"), "reference: %s" % v2.reason)
+                    elif v2.status == "valid":
+                        dd = tree_diff(real_tree(r["result"]), ref_tree(v2.tree))
+                        if dd:
+                            findings.note((pid, "tree"), data.decode("latin-1"), dd)
+                        for cls_, detail in roundtrip_problems(data, r):
+                            findings.note((pid, "roundtrip." + cls_), data.decode("latin-1"), detail)
+                        if not dd and len(samples) < 3 and label == "use" and k:
+                            samples.append({"definition": repr(d)[:160], "use": data.decode("latin-1"), "verdict": "accepted, recorded under the defined names, re-parses equal"})
+        finally:
+            vars(commands).pop(cls.__name__, None)
+    # unregistered names remain unknown
+    r = real_parse(b'zzznotregistered "x";')
+    evals += 1
+    if not (r["verdict"] is False and "unknown command" in (r.get("error") or "")):
+        findings.note((pid, "unregistered-known"), 'zzznotregistered "x";', repr(r.get("error")))
+    return {"name": "custom-commands", "bound": "%d generated definitions of the documented shape; for each, every use enumerated "
+            "from the definition (each tag alone, all tags in both orders, string/list forms) + single-token edits + the use "
+            "without its require: %d scripts" % (len(descs), evals), "rule": "distinct = script text", "evaluations": evals,
+            "distinct": len(distinct), "samples": samples, "exhaustive": False, "violations": findings.violations(pid, "custom", (pid,))}
+
+
+def _edits_after(tokens, h, rng, n):
+    from bounded import sieve_gen as g
+    out = []
+    if len(tokens) <= h:
+        return out
+    for _ in range(n):
+        i = rng.randrange(h, len(tokens))
+        kind = rng.choice(["delete", "insert", "replace", "swap"])
+        t = list(tokens)
+        if kind == "delete":
+            del t[i]
+        elif kind == "insert":
+            t.insert(i, rng.choice(g.EDIT_TOKENS))
+        elif kind == "replace":
+            t[i] = rng.choice(g.EDIT_TOKENS)
+        elif i + 1 < len(t):
+            t[i], t[i + 1] = t[i + 1], t[i]
+        out.append((kind, i, t))
+    return out
